@@ -91,6 +91,9 @@ type Config struct {
 	// WideCompare: install a KeyCompare that answers like strcmp (negative / zero / positive, here
 	// -3, 0, 3) instead of -1, 0, 1: RemoteConfig.KeyCompare documents no range
 	WideCompare bool
+	// FlushFaults: the alphabet also holds MakeRoot calls during which a class of Store calls or the
+	// i-th Marshal call fails (OpPersistFail)
+	FlushFaults bool
 	// Exact: states are merged on the exact key (slice capacities and backing-array identities
 	// included), so a node reached with spare capacity in its slices is explored as its own state
 	Exact bool
@@ -374,6 +377,13 @@ func Uint8Cfg(bf uint, keys []uint8, format, cache string) *Config {
 	c := &Config{BF: bf, Format: format, KS: KSUint8, Keys: sortKeys(KSUint8, ks), Vals: strs("a", "b"),
 		KeysLike: uint8(0), ValsLike: "", Cache: cache, Probes: []interface{}{uint8(3), uint8(255)}}
 	c.Name = fmt.Sprintf("uint8%v/bf%d/%s/%s", keys, bf, shortFmt(format), cache)
+	return c
+}
+
+// WithFlushFaults returns c with failing MakeRoot calls in its alphabet.
+func WithFlushFaults(c *Config) *Config {
+	c.FlushFaults = true
+	c.Name = "flush-faults/" + c.Name
 	return c
 }
 
